@@ -6,7 +6,7 @@ CONSTANTS
     MaxN = 5
     Ks = {2, 3}
     MaxIters = {1, 4}
-    LCM = 60
+    FullLayer = FALSE
     ShowSwap = FALSE
     RowSum = 0
     ShowEmpty = FALSE
